@@ -182,7 +182,21 @@ def absent_for(case, built):
         extra.append(b)
     for h in case.get("absent", []):
         extra.append(bytes.fromhex(h))
-    return S.absent_keywords(list(built.db.keys()), built.desc.kw_limit(built.cfg), extra)
+    out = S.absent_keywords(list(built.db.keys()), built.desc.kw_limit(built.cfg), extra)
+    # what Python's global `random` module hands out first after being seeded the way this case seeds it (vlib.drbg.entropy): a
+    # keyword an outsider can compute without the key; it is absent from the database like any other
+    import random as _random
+    limit = built.desc.kw_limit(built.cfg)
+    have = set(built.db.keys()) | {w for w, _ in out}
+    for L in sorted({32, min(limit, 64), min(limit, 16)}):
+        r = _random.Random()
+        r.seed(int.from_bytes(hashlib.sha256(b"rnd:" + repr(case["seed"]).encode()).digest()[:8], "big"))
+        for _ in range(2):
+            b = r.randbytes(L)
+            if b and b[0] != 0 and len(b) <= limit and b not in have:
+                have.add(b)
+                out.append((b, "first_outputs_of_the_seeded_global_random"))
+    return out
 
 
 def run_absent(case, res=None):
